@@ -219,8 +219,14 @@ pm(const char *p, const char *s, int flags)
 				++end;
 			}
 			if (*end == ']') {
-				/* We found [...], try to match it. */
-				if (!pm_list(p + 1, end, *s, flags))
+				/*
+				 * We found [...], try to match it.  A class
+				 * never matches the end of the string: without
+				 * this test a class such as [!a] accepts the
+				 * terminator and the scan continues past it.
+				 */
+				if (*s == '\0' ||
+				    !pm_list(p + 1, end, *s, flags))
 					return (0);
 				p = end; /* Jump to trailing ']' char. */
 				break;
@@ -324,8 +330,14 @@ pm_w(const wchar_t *p, const wchar_t *s, int flags)
 				++end;
 			}
 			if (*end == L']') {
-				/* We found [...], try to match it. */
-				if (!pm_list_w(p + 1, end, *s, flags))
+				/*
+				 * We found [...], try to match it.  A class
+				 * never matches the end of the string: without
+				 * this test a class such as [!a] accepts the
+				 * terminator and the scan continues past it.
+				 */
+				if (*s == L'\0' ||
+				    !pm_list_w(p + 1, end, *s, flags))
 					return (0);
 				p = end; /* Jump to trailing ']' char. */
 				break;
